@@ -2544,3 +2544,23 @@ mod test {
 		assert_eq!(field20.partial_cmp(&field21).unwrap(), std::cmp::Ordering::Less);
 	}
 }
+
+#[cfg(feature = "_verif")]
+#[allow(missing_docs)]
+pub mod verif_hooks {
+	pub use crate::de::verif_hooks::{parse_u16_be, parse_u64_be};
+	pub use crate::ser::verif_hooks::{encode_int_be_base32, encoded_int_be_base32_size};
+	use super::*;
+	pub fn timestamp_fe_iter<'s>(ts: &'s PositiveTimestamp) -> impl Iterator<Item = Fe32> + 's {
+		ts.fe_iter()
+	}
+	/// (amount, si_prefix, error-is-set) of a builder after `amount_milli_satoshis`.
+	pub fn builder_amount_milli_satoshis(
+		amount_msat: u64,
+	) -> (Option<u64>, Option<SiPrefix>, bool) {
+		let b = InvoiceBuilder::new(Currency::Bitcoin).amount_milli_satoshis(amount_msat);
+		let r = (b.amount, b.si_prefix, b.error.is_some());
+		core::mem::forget(b);
+		r
+	}
+}
